@@ -29,6 +29,9 @@ type solverProc struct {
 	wantNames []string
 	wantSorts []ssort
 	fbModel   assignment
+	// tainted: a command of the current path scope was cancelled by the time limit, so the incremental
+	// solver's assertion set is incomplete; every further query of the path goes to the one-shot solvers
+	tainted bool
 }
 
 // PrimaryQuickMs bounds the first, incremental attempt at a query; a query the incremental core does not
@@ -152,13 +155,30 @@ var LastSolverNote string
 // keep=true leaves the inner scope open (for a following get-value); the caller must popInner().
 func (p *solverProc) checkSat(extra []string, keep bool) string {
 	t0 := time.Now()
+	if p.tainted {
+		Stats.Queries++
+		r := p.fallback(extra)
+		if r == "sat" && keep {
+			p.lastFromFallback = true
+		}
+		return r
+	}
 	p.raw("(push 1)")
 	for _, x := range extra {
 		p.raw("(assert " + x + ")")
 	}
 	p.raw("(check-sat)")
+	canceled := false
 	r := p.line()
 	for strings.HasPrefix(r, "(error") || strings.HasPrefix(r, "unsupported") || r == "" {
+		if strings.HasPrefix(r, "(error") && strings.Contains(r, "canceled") {
+			// the time limit expired while a command other than check-sat was being processed: the query is
+			// undecided by this solver, exactly as an "unknown" answer; the one-shot solvers take over
+			canceled = true
+			p.tainted = true
+			r = p.line()
+			continue
+		}
 		if r != "" {
 			Stats.Errors++
 			if !keep {
@@ -177,6 +197,13 @@ func (p *solverProc) checkSat(extra []string, keep bool) string {
 		Stats.Unsat++
 	default:
 		Stats.Unknown++
+		r = "unknown"
+	}
+	if canceled {
+		// whatever was answered after a cancelled command was answered about an incomplete assertion set
+		if r == "sat" || r == "unsat" {
+			Stats.Unknown++
+		}
 		r = "unknown"
 	}
 	if !keep || r != "sat" {
